@@ -821,3 +821,68 @@ def run(ctx):
     stale.check_stale(ctx, P, rule="stale")
     check_notouch(ctx, P)
     check_done(ctx, P)
+
+
+def thorough(ctx):
+    """the libev event engine (selectable with -DFIBER_USE_NATIVE_EVENTS=OFF; not built by the pinned configuration):
+    its two wait sites use mechanism 4 on the loop spinlock, and its wake callbacks run only inside ev_run(), which is
+    called only with that lock held"""
+    P = ctx.prog("pinned", siblings=True)
+    EV = "src/fiber_event_ev.c"
+    if EV + ":fiber_sleep" not in P.functions and not any(f.relfile == EV for f in P.fn_list):
+        return {}
+    ctx.config = "pinned+libev-sibling"
+    by = {f.name: f for f in P.fn_list if f.relfile == EV}
+    for name in ("fiber_wait_for_event", "fiber_sleep"):
+        fn = by.get(name)
+        if fn is None:
+            raise AnalysisBroken("libev sibling: %s not found" % name)
+        o = ctx.ob("wait.4@ev", fn, MECH_REQ[4], MECH_WHY[4])
+        bad = None
+        locks = [c for c in fn.calls("fiber_spinlock_lock")]
+        ys = fn.calls(YIELD)
+        wst = [s_.node for s_, v in state_stores(fn) if v == WAITING]
+        slots = [x for x in fn.stores_to("fiber_manager", "spinlock_to_unlock")]
+        reg = fn.calls(("ev_io_start", "ev_timer_start"))
+        if not locks or not ys or not wst or not slots or not reg:
+            bad = "shape not recognised"
+        else:
+            lk = fn.key(fn.args(locks[0])[0], resolve=True)
+            if fn.calls(UNLOCKS):
+                bad = "the wait site releases a lock itself"
+            for x in slots:
+                if fn.key(x.value, True) != lk:
+                    bad = bad or "the lock handed to the successor is not the one taken"
+            for n in wst + reg + [x.node for x in slots]:
+                if fn.dominated_by(n, nodeset(locks)) is not None:
+                    bad = bad or "`%s` happens without the loop lock" % n.text[:40]
+                if any(fn.dominated_by(y, nodeset([n])) is not None for y in ys):
+                    bad = bad or "the yield is reachable without `%s`" % n.text[:40]
+        o.check(bad is None, "mechanism 4 on fiber_loop_spinlock", bad, site=fn.loc, construct="libev wait site " + name)
+    o = ctx.ob("wake.4@ev", "", "ev_run (which invokes the wake callbacks fd_ready / timer_trigger) is called only with fiber_loop_spinlock held, "
+               "and the callbacks mark the fiber READY before scheduling it and do not touch its stack-resident watcher afterwards",
+               "the watcher lives on the sleeping fiber's stack")
+    bad = None
+    for fn in by.values():
+        for c in fn.calls("ev_run"):
+            lk = fn.calls(("fiber_spinlock_lock", "fiber_spinlock_trylock"))
+            un = fn.calls("fiber_spinlock_unlock")
+            if held_lock_ok(fn, c, lk, un) is not None:
+                bad = bad or "ev_run in %s without the loop lock" % fn.name
+    for name in ("fd_ready", "timer_trigger"):
+        fn = by.get(name)
+        if fn is None:
+            bad = bad or name + " missing"
+            continue
+        sc = fn.calls(SCHED)
+        rd = [s_.node for s_, v in state_stores(fn) if v == READY]
+        if not sc or not rd or fn.dominated_by(sc[0], nodeset(rd)) is not None:
+            bad = bad or "%s schedules before READY" % name
+        wp = fn.params[1]["did"]
+        for n in fn.nodes:
+            if n.k == "MemberExpr" and n.arrow and strip(n.kids[0]).k == "DeclRefExpr" and strip(n.kids[0]).did == wp and sc:
+                if fn.find_path(sc[0], lambda m: m is strip(n.kids[0])) is not None:
+                    bad = bad or "%s reads the watcher after scheduling its fiber" % name
+    o.check(bad is None, "ev_run under lock; callbacks READY -> schedule", bad, site=EV, construct="libev wake discipline")
+    ctx.config = "pinned"
+    return {}
